@@ -555,7 +555,7 @@ def lib_history(rng, n):
 def gen_cases(rng, tier):
     cases = []
     quick = tier == "quick"
-    n_prog = 300 if quick else 2500
+    n_prog = 300 if quick else 5000
     hmax = 12 if quick else 40
     seeds = 2 if quick else 3
     for i in range(n_prog):
@@ -566,7 +566,7 @@ def gen_cases(rng, tier):
         for s in range(seeds if (g.feats & {"group-or", "when", "await-group"}) else 1):
             cases.append({"kind": "gen", "prog": prog, "history": history(rng, rng.randrange(2, hmax + 1)), "tie_seed": rng.randrange(1 << 30), "feats": feats})
     # exhaustive histories over a small alphabet for small programs
-    n_small = 6 if quick else 24
+    n_small = 6 if quick else 30
     hl = 3 if quick else 5
     for i in range(n_small):
         g = G(rng, rng.choice([1, 2, 2]), 1)
@@ -578,7 +578,7 @@ def gen_cases(rng, tier):
         for s in seqs:
             cases.append({"kind": "exh", "prog": prog, "history": s, "tie_seed": 1, "feats": sorted(g.feats)})
     # shipped library flows
-    n_lib = 12 if quick else 100
+    n_lib = 14 if quick else 140
     for i in range(n_lib):
         libs, src = LIB_PROGRAMS[i % len(LIB_PROGRAMS)]
         cases.append({"kind": "lib", "libs": libs, "src": src, "history": lib_history(rng, rng.randrange(3, hmax + 1)), "tie_seed": rng.randrange(1 << 30),
